@@ -1607,7 +1607,8 @@ impl PeerConnection {
             *stored = remote_dtls_fingerprint;
         }
 
-        // Start ICE
+        // Collect the remote ICE parameters; ICE itself is started further down, once the
+        // description has been applied and stored.
         let mut ufrag = None;
         let mut pwd = None;
         let mut candidates = Vec::new();
@@ -1658,35 +1659,6 @@ impl PeerConnection {
                     candidates.push(c);
                 }
             }
-        }
-
-        if self.config().transport_mode == TransportMode::WebRtc {
-            if let (Some(u), Some(p)) = (ufrag.clone(), pwd.clone()) {
-                let params = crate::transports::ice::IceParameters {
-                    username_fragment: u,
-                    password: p,
-                    ice_lite: false,
-                    tie_breaker: 0,
-                };
-                self.inner
-                    .ice_transport
-                    .start(params)
-                    .map_err(|e| crate::RtcError::Internal(format!("ICE error: {}", e)))?;
-
-                for candidate in candidates.iter().cloned() {
-                    self.inner.ice_transport.add_remote_candidate(candidate);
-                }
-            }
-        } else if self.config().transport_mode == TransportMode::Rtp {
-            // Direct RTP setup is deferred until media sections have been matched
-            // to transceivers. Non-BUNDLE audio/video need separate sockets.
-        } else if let Some(addr) = remote_addr {
-            // SRTP mode: use ICE start_direct
-            self.inner
-                .ice_transport
-                .start_direct(addr)
-                .await
-                .map_err(|e| crate::RtcError::Internal(format!("ICE direct error: {}", e)))?;
         }
 
         // Create transceivers for new media sections in Offer
@@ -2044,6 +2016,41 @@ impl PeerConnection {
         {
             let mut remote = self.inner.remote_description.lock();
             *remote = Some(desc.clone());
+        }
+
+        // Start ICE only now. The transports are started from another task as soon as a
+        // pair is nominated (over loopback or ICE-TCP that takes well under a millisecond),
+        // and `start_dtls` decides from the stored remote description whether an SCTP
+        // association is needed and attaches the receivers as they are at that moment.
+        // Started any earlier, it can run against the previous (or no) remote description
+        // and the data channels of this session never open.
+        if self.config().transport_mode == TransportMode::WebRtc {
+            if let (Some(u), Some(p)) = (ufrag.clone(), pwd.clone()) {
+                let params = crate::transports::ice::IceParameters {
+                    username_fragment: u,
+                    password: p,
+                    ice_lite: false,
+                    tie_breaker: 0,
+                };
+                self.inner
+                    .ice_transport
+                    .start(params)
+                    .map_err(|e| crate::RtcError::Internal(format!("ICE error: {}", e)))?;
+
+                for candidate in candidates.iter().cloned() {
+                    self.inner.ice_transport.add_remote_candidate(candidate);
+                }
+            }
+        } else if self.config().transport_mode == TransportMode::Rtp {
+            // Direct RTP setup is deferred until media sections have been matched
+            // to transceivers. Non-BUNDLE audio/video need separate sockets.
+        } else if let Some(addr) = remote_addr {
+            // SRTP mode: use ICE start_direct
+            self.inner
+                .ice_transport
+                .start_direct(addr)
+                .await
+                .map_err(|e| crate::RtcError::Internal(format!("ICE direct error: {}", e)))?;
         }
 
         if self.config().transport_mode == TransportMode::Rtp {
